@@ -63,7 +63,7 @@ pub fn run(ctx: &mut Ctx, _replay: Option<&[String]>) {
                     if !ctx.thorough && rng.chance(1, 2) && inter.abs() == 4 { continue; }
                     let fac = Scripted {
                         counter: Arc::new(AtomicU64::new(0)), log: Arc::new(Mutex::new(Vec::new())), log_limit: 24,
-                        panic_every: 0, built: Arc::new(AtomicU64::new(0)), seed: ctx.seed, seq: false,
+                        panic_every: 0, built: Arc::new(AtomicU64::new(0)), seed: ctx.seed, seq: false, iter_offset: 0,
                     };
                     let log = fac.log.clone();
                     let t = BerTestBuilder {
@@ -116,7 +116,7 @@ pub fn run(ctx: &mut Ctx, _replay: Option<&[String]>) {
             for (modulation, pat, inter) in cfgs {
                 let fac = Scripted {
                     counter: Arc::new(AtomicU64::new(0)), log: Arc::new(Mutex::new(Vec::new())), log_limit: 64,
-                    panic_every: 0, built: Arc::new(AtomicU64::new(0)), seed: ctx.seed, seq: false,
+                    panic_every: 0, built: Arc::new(AtomicU64::new(0)), seed: ctx.seed, seq: false, iter_offset: 0,
                 };
                 let log = fac.log.clone();
                 // built and run inside a watchdog thread: a run that neither fails nor finishes is reported as `hang`
@@ -154,7 +154,7 @@ pub fn run(ctx: &mut Ctx, _replay: Option<&[String]>) {
                 let bps = if modulation == Modulation::Psk8 { 3 } else { 1 };
                 let fac = Scripted {
                     counter: Arc::new(AtomicU64::new(0)), log: Arc::new(Mutex::new(Vec::new())), log_limit: 2000,
-                    panic_every: 0, built: Arc::new(AtomicU64::new(0)), seed: ctx.seed, seq: false,
+                    panic_every: 0, built: Arc::new(AtomicU64::new(0)), seed: ctx.seed, seq: false, iter_offset: 0,
                 };
                 let log = fac.log.clone();
                 let t = BerTestBuilder {
@@ -185,7 +185,7 @@ pub fn run(ctx: &mut Ctx, _replay: Option<&[String]>) {
                 for i in (1..plen).rev() { p.swap(i, rng.below(i + 1)); }
                 let fac = Scripted {
                     counter: Arc::new(AtomicU64::new(0)), log: Arc::new(Mutex::new(Vec::new())), log_limit: 0,
-                    panic_every: 0, built: Arc::new(AtomicU64::new(0)), seed: 0, seq: false,
+                    panic_every: 0, built: Arc::new(AtomicU64::new(0)), seed: 0, seq: false, iter_offset: 0,
                 };
                 let t = BerTestBuilder {
                     h: h.clone(), decoder_implementation: fac, modulation: Modulation::Bpsk, puncturing_pattern: Some(&p),
@@ -206,7 +206,7 @@ pub fn run(ctx: &mut Ctx, _replay: Option<&[String]>) {
         let frames = ctx.scale(20_000, 200_000);
         let fac = Scripted {
             counter: Arc::new(AtomicU64::new(0)), log: Arc::new(Mutex::new(Vec::new())), log_limit: frames,
-            panic_every: 0, built: Arc::new(AtomicU64::new(0)), seed: 0, seq: false,
+            panic_every: 0, built: Arc::new(AtomicU64::new(0)), seed: 0, seq: false, iter_offset: 0,
         };
         let log = fac.log.clone();
         // the scripted decoder reports bit errors on frames 1,2,3 mod 4, so ~3/4 of the frames are frame errors
